@@ -9,10 +9,18 @@
 #ifndef HP_P
 #define HP_P 1
 #endif
+#ifndef HP_PREFILL
+#define HP_PREFILL 0
+#endif
 static double det2(double a,double b,double c,double d){ return a*d-b*c; }
 void harness(void){
 #if HP_WHICH==0
-  matrix *m,*inv; NewMatrix(&m,HP_N,HP_N); initMatrix(&inv);
+  matrix *m,*inv; NewMatrix(&m,HP_N,HP_N);
+#if HP_PREFILL
+  NewMatrix(&inv,HP_N,HP_N); for(size_t i=0;i<HP_N;i++)for(size_t j=0;j<HP_N;j++) inv->data[i][j]=in_double(-1e3,1e3);
+#else
+  initMatrix(&inv);
+#endif
   for(size_t i=0;i<HP_N;i++)for(size_t j=0;j<HP_N;j++) m->data[i][j]=in_double(-10,10);
 #if HP_N==1
   ASSUME(m->data[0][0]>=1e-2 || m->data[0][0]<=-1e-2);
@@ -55,7 +63,12 @@ void harness(void){
 #endif
   CHECK_EQ(d, e, "determinant = Leibniz sum over permutations");
 #else
-  matrix *x; NewMatrix(&x,HP_N,HP_P); dvector *y,*b; NewDVector(&y,HP_N); initDVector(&b);
+  matrix *x; NewMatrix(&x,HP_N,HP_P); dvector *y,*b; NewDVector(&y,HP_N);
+#if HP_PREFILL
+  NewDVector(&b,HP_P); for(size_t j=0;j<HP_P;j++) b->data[j]=in_double(-1e3,1e3);
+#else
+  initDVector(&b);
+#endif
   for(size_t i=0;i<HP_N;i++){ for(size_t j=0;j<HP_P;j++) x->data[i][j]=in_double(-10,10); y->data[i]=in_double(-10,10); }
   OrdinaryLeastSquares(x,y,b);
   CHECK(b->size==HP_P, "one coefficient per column");
